@@ -193,8 +193,19 @@ class Taint:
                 a = self.W.ev(cp).call_args(cbb)
                 if len(a) >= i:
                     out |= self.taint(a[i - 1], depth + 1)
-            # closures: captured variables
             fn = P.fns.get(fp)
+            if fn is not None and fn.kind == "closure" and i >= 2:
+                # an argument the closure is called with by the adaptor it was handed to (`r.unwrap_or_else(|e| ..)`, `r.map_err(|e| ..)`,
+                # `o.map(|v| ..)`): derived from the adaptor's other operands - unless its type is one that carries no data
+                pty = fn.locals[i]["ty"] if i < len(fn.locals) else ""
+                if not any(d in pty for d in getattr(self, "data_free_types", ())):
+                    parent = P.fns.get(fn.parent)
+                    if parent is not None and self.scope(parent.path):
+                        pev = self.W.ev(parent.path)
+                        for cbb, tt in parent.calls():
+                            if fp in [c[3:] if c.startswith("fn:") else c for c in (tt.get("closures") or [])]:
+                                out |= self._union([a for a in pev.call_args(cbb) if not (isinstance(a, tuple) and a and a[0] == "closure")], depth)
+            # closures: captured variables
             if fn is not None and fn.kind == "closure" and i == 1:
                 parent = P.fns.get(fn.parent)
                 if parent is not None:
